@@ -8,7 +8,7 @@ rnd = int(sys.argv[2]) if len(sys.argv) > 2 else 1
 p = props[pid]
 wt = f"/tmp/seed/{pid}"
 out = f"{wt}-out" if rnd == 1 else f"{wt}-out{rnd}"
-names = ("A", "B") if rnd == 1 else (("C", "D") if rnd == 2 else ("E", "F"))
+names = {1: ("A", "B"), 2: ("C", "D"), 3: ("E", "F"), 4: ("G", "H")}[rnd]
 avoid = ""
 if rnd > 1:
     import glob, os
